@@ -95,9 +95,21 @@ def transpose_rules(ctx):
         k_outer, p_outer, k_inner, p_inner, body = found
         detail = f"mk_layout({k_outer}, lambda {p_outer}: mk_layout({k_inner}, lambda {p_inner}: {ast.unparse(body)}))"
         shape = body.value if isinstance(body, ast.Attribute) and body.attr == "shape" else None
-        ok = (k_outer == "i_keys" and k_inner == "o_keys" and shape is not None and isinstance(shape, ast.Subscript) and isinstance(shape.value, ast.Subscript)
+        # roles of the local names: the function returns (layout, <outer keys of the argument>, <inner keys>); the table of
+        # field layouts is the dict built over the outer keys
+        o_name = i_name = None
+        for st in ast.walk(node):
+            if isinstance(st, ast.Return) and isinstance(st.value, ast.Tuple) and len(st.value.elts) == 3 and all(isinstance(e, ast.Name) for e in st.value.elts[1:]):
+                o_name, i_name = st.value.elts[1].id, st.value.elts[2].id
+        tables = set()
+        for st in ast.walk(node):
+            if isinstance(st, ast.Assign) and len(st.targets) == 1 and isinstance(st.targets[0], ast.Name):
+                for dc in ast.walk(st.value):
+                    if isinstance(dc, ast.DictComp) and len(dc.generators) == 1 and isinstance(dc.generators[0].iter, ast.Name) and dc.generators[0].iter.id == o_name:
+                        tables.add(st.targets[0].id)
+        ok = (o_name is not None and k_outer == i_name and k_inner == o_name and shape is not None and isinstance(shape, ast.Subscript) and isinstance(shape.value, ast.Subscript)
               and isinstance(shape.slice, ast.Name) and shape.slice.id == p_outer and isinstance(shape.value.slice, ast.Name) and shape.value.slice.id == p_inner
-              and isinstance(shape.value.value, ast.Name) and shape.value.value.id == "i_layouts")
+              and isinstance(shape.value.value, ast.Name) and shape.value.value.id in tables)
     ctx.check(ok, "C41.transpose-layout-nesting", fk.site, "transpose_layout_with_keys.ret_layout", found=detail,
               required="outer level over i_keys, inner level over o_keys, leaf shape = i_layouts[o_key][i_key].shape (the swapped position)")
     # mk_layout: struct for names (same keys, in order), array for indices (length = number of keys)
